@@ -16,8 +16,8 @@ from collections import defaultdict
 from .facts import short, clean_ty, ty_head, render, expr_root
 from .rule import ok, bad, undecided
 
-PSC = 'desync::pipe::PipeStreamCore'
-SFR = 'desync::scheduler::scheduler_future::SchedulerFutureResult'
+PSC = 'desync::PipeStreamCore'
+SFR = 'desync::SchedulerFutureResult'
 
 # slot -> condition fields and their enabling writes
 SLOTS = [
@@ -37,14 +37,14 @@ SLOTS = [
 
 # audited exceptions, one reason each
 LW1_EXCEPT = {
-    ('desync::scheduler::scheduler_future::SchedulerFuture::drain_queue', 'waker'):
+    ('desync::SchedulerFuture::drain_queue', 'waker'):
         'stored by the token owner while it runs the queue: every signal() happens inside a job of the same queue (checked: LW-owner), '
         'so no notifier can run between the owner\'s test of the result and this store',
 }
 LW2_EXCEPT = {
-    ('<desync::pipe::PipeStream as core::ops::drop::Drop>::drop', 'notify'):
+    ('<desync::PipeStream as core::ops::drop::Drop>::drop', 'notify'):
         'the consumer is the object being dropped (&mut self): nobody can be polling it',
-    ('<desync::pipe::PipeStream as core::ops::drop::Drop>::drop', 'backpressure_release_notify'):
+    ('<desync::PipeStream as core::ops::drop::Drop>::drop', 'backpressure_release_notify'):
         'refuted by experiment (triage d5): the only reference keeping a throttled producer alive is the waker in that slot, which dies with the core',
 }
 
@@ -360,14 +360,14 @@ def lw_prov(ctx):
     # and the producer closures are only ever handed a PipeWaker
     wk = []
     for f in F.crate_fns():
-        if (f.root or f.name) == 'desync::pipe::PipeContext::poll':
+        if (f.root or f.name) == 'desync::PipeContext::poll':
             wk += [t for bb, t in f.calls() if (t['func'].get('fn') or '') in ('futures_task::waker::waker', 'futures_task::waker_ref::waker_ref')]
-    if not F.fn('desync::pipe::PipeContext::poll'):
+    if not F.fn('desync::PipeContext::poll'):
         out.append(undecided('LW-prov', 'PipeContext::poll', 'anchor not found'))
-    elif len(wk) == 1 and 'desync::pipe::PipeWaker' in ' '.join(wk[0]['func'].get('fnargs', [])):
-        out.append(ok('LW-prov', 'PipeContext::poll', 'the waker handed to the poll function is built from a PipeWaker', fn='desync::pipe::PipeContext::poll'))
+    elif len(wk) == 1 and 'desync::PipeWaker' in ' '.join(wk[0]['func'].get('fnargs', [])):
+        out.append(ok('LW-prov', 'PipeContext::poll', 'the waker handed to the poll function is built from a PipeWaker', fn='desync::PipeContext::poll'))
     else:
-        out.append(bad('LW-prov', 'PipeContext::poll', 'the waker handed to the pipe poll function is no longer (only) a PipeWaker', fn='desync::pipe::PipeContext::poll'))
+        out.append(bad('LW-prov', 'PipeContext::poll', 'the waker handed to the pipe poll function is no longer (only) a PipeWaker', fn='desync::PipeContext::poll'))
     if n < 2:
         out.append(undecided('LW-prov', 'floor', 'found %d stores to notify_stream_closed, expected at least 2' % n))
     return out
@@ -379,7 +379,7 @@ def lw_cancel(ctx):
     from .ordq import calls, result_edges, edom
     F = ctx.F
     out = []
-    fn = F.fn('<desync::scheduler::scheduler_future::SchedulerFutureSignaller as core::ops::drop::Drop>::drop')
+    fn = F.fn('<desync::SchedulerFutureSignaller as core::ops::drop::Drop>::drop')
     if not fn:
         return [undecided('LW-cancel', 'anchor', 'Drop for SchedulerFutureSignaller not found')]
     u = FieldUse(fn, SFR)
@@ -405,8 +405,8 @@ def lw_register(ctx):
     from .ordq import edom
     F = ctx.F
     out = []
-    table = [('<desync::pipe::PipeStream as futures_core::stream::Stream>::poll_next', PSC, 'notify', 'PipeStream.core'),
-             ('<desync::scheduler::scheduler_future::SchedulerFuture as core::future::future::Future>::poll', SFR, 'waker', 'SchedulerFuture.result')]
+    table = [('<desync::PipeStream as futures_core::stream::Stream>::poll_next', PSC, 'notify', 'PipeStream.core'),
+             ('<desync::SchedulerFuture as core::future::future::Future>::poll', SFR, 'waker', 'SchedulerFuture.result')]
     for fname, adt, W, cls in table:
         fn = F.fn(fname)
         key = '%s|%s' % (short(fname), W)
@@ -434,7 +434,7 @@ def lw_register(ctx):
             missing = []
             seen_any = False
             for f2, _, snaps in events_of(ctx.proto, 'exit_reg'):
-                if f2 in (fname, 'desync::scheduler::scheduler_future::SchedulerFuture::drain_queue'):
+                if f2 in (fname, 'desync::SchedulerFuture::drain_queue'):
                     for (ret, reg, built) in snaps:
                         if ret == ('enum', 'Pending') and built:
                             seen_any = True
